@@ -91,6 +91,19 @@ def drive(ctx):
                     if not isinstance(P, Exception):
                         ctx.emit("contains", {"abs": False}, pre_objs=[S, E, P])
                         ctx.emit("contains", {"abs": True}, pre_objs=[E, S, P])
+    # Date intervals iterated directly and by days / weeks: short (0, 1, 2 days), month-sized and long, every orientation
+    import datetime as _dt3
+
+    for k in range(24 if q else 300):
+        d0 = _dt3.date(rnd.randrange(1950, 2090), rnd.randrange(1, 13), rnd.randrange(1, 29))
+        d1 = d0 + _dt3.timedelta(days=(0, 1, 2, 3, 7, 30, 31, 365, 400, 1000)[k % 10])
+        a = {"k": "date", "w": [d0.year, d0.month, d0.day], "cls": "Date"}
+        b = {"k": "date", "w": [d1.year, d1.month, d1.day], "cls": "Date"}
+        for (x, y, ab) in ((a, b, False), (b, a, False), (b, a, True), (a, b, True)):
+            ctx.emit("range", {"abs": ab, "unit": "days", "n": 1, "mode": "iter"}, [x, y])
+            ctx.emit("range", {"abs": ab, "unit": "days", "n": 1 + k % 3}, [x, y])
+            if k % 4 == 0:
+                ctx.emit("range", {"abs": ab, "unit": "weeks", "n": 1}, [x, y])
     # iteration by days, long ranges, naive, dates, random
     for k in range(40 if q else 500):
         s1 = rnd.randrange(LO + 86400 * 400, HI - 86400 * 365 * 40)
